@@ -1,5 +1,5 @@
 //@ append src/cli/src/keyring.rs
-//@ native verif_oracle_keyring_parse "bounded stand-in / witness finder (C17, C09): keyrings of 1..4 entries written by the real serialize_key (names incl. '=', spaces, 128-byte ASCII and multi-byte names; with and without PrivateKey) parse back to exactly the entries written, in order; 14 kinds of malformed keyring (duplicate name / public key at every pair of positions among 4 entries, 129-byte names with fewer than 129 characters, missing fields, wrong key lengths, stray lines) are rejected; every truncation, line deletion, line duplication and a 6-character substitution at every third position of a two-entry keyring neither panics nor yields an entry violating the accepted-entry invariant, and the accepted keys decode without panic"
+//@ native verif_oracle_keyring_parse "bounded stand-in / witness finder (C17, C09): keyrings of 1..4 entries written by the real serialize_key (names incl. '=', spaces, 128-byte ASCII and multi-byte names; with and without PrivateKey) parse back to exactly the entries written, in order; 14 kinds of malformed keyring (duplicate name / public key at every pair of positions among 4 entries, 129-byte names with fewer than 129 characters, missing fields, wrong key lengths, stray lines) are rejected; every truncation, line deletion, line duplication and a 6-character substitution at every third position of a two-entry keyring, and a 2-, 3- and 4-byte character at every byte offset 0..70 of every kind of line, neither panics nor yields an entry violating the accepted-entry invariant, and the accepted keys decode without panic"
 //@ native verif_oracle_lock_format "bounded stand-in / witness finder (C15, C16): for password lengths 0, 1, 64, 65, 100 the real lock_private_key output is base64(version || salt || ChaCha20-Poly1305(scrypt(pw, salt, 32768, 8, 1, 32), nonce 0, key, aad = version)) composed independently from the crate's primitives, unlocks to the same key, and is rejected under an unrelated password and after a bit flip in the version (both low and high bit), the salt, the ciphertext and the tag"
 // Native oracles on the REAL CLI code.  Never counted as proved; a disagreement is a concrete failing input.
 #[cfg(test)]
@@ -143,6 +143,15 @@ mod verif_o_cli {
         for i in (0..chars.len()).step_by(3) { for c in ['=', '[', '\t', ' ', '#', '\u{e9}'] {
             let mut m = chars.clone(); m[i] = c; muts.push(m.into_iter().collect());
         } }
+        // multi-byte characters at every byte offset 0..70 of every kind of line (byte-offset slicing of UTF-8 text panics
+        // off a character boundary)
+        for prefix in ["", "Name = ", "PublicKey = ", "PrivateKey = ", "# ", "[Key]", "\t "] {
+            for k in 0..70usize { for ch in ["\u{e9}", "\u{20ac}", "\u{1f511}"] {
+                let line = format!("{}{}{}{}", prefix, "a".repeat(k), ch, "b".repeat(40));
+                muts.push(format!("{}{}\n", entry("alice", &pk(1), None), line));
+                if k % 7 == 0 { muts.push(format!("{}\n{}", line, entry("alice", &pk(1), None))); }
+            } }
+        }
         for cfg in muts.iter() {
             n += 1;
             let r = std::panic::catch_unwind(|| {
